@@ -6,3 +6,6 @@ import KalignModel.Props.C01
 #print axioms Kalign.C01_rows
 #print axioms Kalign.C01_no_allgap_column
 #print axioms Kalign.C01_expandPath_valid
+#print axioms Kalign.Kmeans.split2_partition
+#print axioms Kalign.Kmeans.bisectingKmeans_leaves
+#print axioms Kalign.Kmeans.bisectingKmeans_fuel
